@@ -873,6 +873,148 @@ Proof.
   exact (convert_into_covered c Hc t1 t2 v' old' (proj2 (compat_covered t1 t2 H1)) T).
 Qed.
 
+(* ---------- the entry points: ConvertFrom, DecodeFrom, Proxy.Call2 ---------- *)
+
+Fixpoint same_sig_fields (fs1 fs2 : list (string * gotype)) : bool :=
+  match fs1, fs2 with
+  | [], [] => true
+  | (n1, t1) :: r1, (n2, t2) :: r2 => String.eqb n1 n2 && same_sigb t1 t2 && same_sig_fields r1 r2
+  | _, _ => false
+  end.
+Lemma same_sigb_struct fs1 fs2 : same_sigb (TStruct fs1) (TStruct fs2) = same_sig_fields fs1 fs2.
+Proof. reflexivity. Qed.
+
+Lemma same_sig_class t1 t2 : same_sigb t1 t2 = true -> class_of t1 = class_of t2.
+Proof. destruct t1, t2; cbn [same_sigb class_of]; try discriminate; reflexivity. Qed.
+
+Lemma convert_onto_class_mismatch c t1 t2 v old : class_of t1 <> class_of t2 -> convert_onto c t1 t2 v old = CErr.
+Proof.
+  intro H. unfold convert_onto.
+  destruct t2, t1; cbn [class_of] in H; try congruence; cbn [convert_into convert_to]; try reflexivity; destruct v; reflexivity.
+Qed.
+
+(* second clause at every entry point: kinds of different classes are refused, whatever the value,
+   whatever the destination held, whatever the switches *)
+Theorem enter_class_mismatch : forall e c t1 t2 v old, class_of t1 <> class_of t2 -> enter e c t1 t2 v old = CErr.
+Proof.
+  intros e c t1 t2 v old H. unfold enter.
+  assert (Hconv : match old with None => convert c t1 t2 v | Some d => convert_onto c t1 t2 v d end = CErr).
+  { destruct old; [now apply convert_onto_class_mismatch | now apply convert_class_mismatch]. }
+  destruct e; try exact Hconv.
+  destruct (same_sigb t1 t2) eqn:E; [|exact Hconv]. apply same_sig_class in E. contradiction.
+Qed.
+
+(* the fields of two struct types with the same signature, position by position *)
+Lemma same_sig_fields_Forall2 fs1 fs2 :
+  same_sig_fields fs1 fs2 = true ->
+  Forall2 (fun a b : string * gotype => fst a = fst b /\ same_sigb (snd a) (snd b) = true) fs1 fs2.
+Proof.
+  revert fs2. induction fs1 as [|[n1 t1] fs1 IH]; intros [|[n2 t2] fs2]; cbn [same_sig_fields]; try discriminate.
+  - constructor.
+  - rewrite !andb_true_iff. intros [[Hn Ht] Hr]. apply String.eqb_eq in Hn. constructor; [cbn [fst snd]; auto | now apply IH].
+Qed.
+
+Lemma Forall2_combine_shift {A B} (R : A -> A -> Prop) (l1 l2 : list A) (vs : list B) b x :
+  Forall2 R l1 l2 -> In (b, x) (combine l2 vs) -> exists a, In (a, x) (combine l1 vs) /\ R a b.
+Proof.
+  intro H. revert vs. induction H as [|a1 a2 l1 l2 HR _ IH]; intros [|v vs]; cbn [combine In]; try tauto.
+  intros [E|Hin].
+  - inversion E; subst. exists a1. auto.
+  - destruct (IH vs Hin) as [a [Ha HRa]]. exists a. auto.
+Qed.
+
+(* a reply whose advertised signature is the caller's own is read directly; for compatible types
+   that is the conversion: converting into a type with the same signature gives the value itself *)
+Theorem same_sig_convert : forall c, clean c -> forall t1 t2 v,
+  same_sigb t1 t2 = true -> compat t1 t2 -> has_type t1 v -> convert c t1 t2 v = COk v.
+Proof.
+  intros c Hclean. unfold convert.
+  induction t1 as [| |k1| | |e1 IHe|k1 e1 IHk IHe|fs1 IHfs] using gotype_ind2; intros t2 v Hs Hc Ht.
+  - destruct t2; try discriminate Hc. destruct v; try discriminate Ht. reflexivity.
+  - destruct t2; try discriminate Hc. destruct v; try discriminate Ht. reflexivity.
+  - destruct t2 as [| |k2| | | | |]; try discriminate Hc. destruct v; try discriminate Ht.
+    unfold compat in Hc. cbn [compatb] in Hc. apply andb_true_iff in Hc. destruct Hc as [Hsg Hb].
+    apply Bool.eqb_prop in Hsg. apply Z.leb_le in Hb. unfold has_type in Ht. cbn [has_typeb] in Ht.
+    destruct (int_widen k1 k2 z Hsg Hb Ht) as [H1 _]. cbn [convert_to]. now rewrite H1.
+  - destruct t2; try discriminate Hs. destruct v; try discriminate Ht.
+    apply float32_typed in Ht. destruct Ht as [_ Hr]. cbn [convert_to]. now rewrite Hr.
+  - destruct t2; try discriminate Hs. destruct v; try discriminate Ht. reflexivity.
+  - destruct t2 as [| | | | |e2| |]; try discriminate Hc. destruct v; try discriminate Ht.
+    cbn [same_sigb] in Hs. unfold compat in Hc. cbn [compatb] in Hc. unfold has_type in Ht. cbn [has_typeb] in Ht.
+    cbn [convert_to].
+    assert (E : map_res (convert_to c e2 e1) l = COk l).
+    { induction l as [|x l IHl]; cbn [map_res forallb] in *; [reflexivity|].
+      apply andb_true_iff in Ht. destruct Ht as [Hx Hl]. rewrite (IHe e2 x Hs Hc Hx), (IHl Hl). reflexivity. }
+    now rewrite E.
+  - destruct t2 as [| | | | | |k2 e2|]; try discriminate Hc. destruct v; try discriminate Ht.
+    cbn [same_sigb] in Hs. apply andb_true_iff in Hs. destruct Hs as [Hsk Hse].
+    unfold compat in Hc. cbn [compatb] in Hc. apply andb_true_iff in Hc. destruct Hc as [Hck Hce].
+    unfold has_type in Ht. cbn [has_typeb] in Ht. apply andb_true_iff in Ht. destruct Ht as [Hall Hnd].
+    apply nodupb_KND in Hnd. cbn [convert_to].
+    rewrite (conv_map_clean c _ _ _ _ m m (proj1 Hclean)) with (acc := []); [reflexivity| |exact Hnd].
+    rewrite forallb_forall in Hall. clear Hnd.
+    induction m as [|[k e] m IHm]; constructor.
+    + pose proof (Hall (k, e) (or_introl eq_refl)) as H. cbn [fst snd] in *. apply andb_true_iff in H. destruct H as [Hk He].
+      split; [exact (IHk k2 k Hsk Hck Hk) | exact (IHe e2 e Hse Hce He)].
+    + apply IHm. intros kv Hin. apply Hall. now right.
+  - destruct t2 as [| | | | | | |fs2]; try discriminate Hc. destruct v as [| | | | | |vs]; try discriminate Ht.
+    rewrite same_sigb_struct in Hs. pose proof (same_sig_fields_Forall2 _ _ Hs) as HF.
+    unfold compat in Hc. cbn [compatb] in Hc.
+    apply andb_true_iff in Hc. destruct Hc as [Hc _].
+    apply andb_true_iff in Hc. destruct Hc as [Hc F12].
+    apply andb_true_iff in Hc. destruct Hc as [ND1 ND2].
+    apply string_nodupb in ND1. apply string_nodupb in ND2.
+    rewrite forallb_forall in F12. rewrite Forall_forall in IHfs.
+    unfold has_type in Ht. rewrite has_typeb_struct in Ht.
+    pose proof (fields_typed_length _ _ Ht) as Hlen.
+    cbn [convert_to].
+    rewrite (conv_fields_of_Forall2 _ fs1 vs fs2 vs); [reflexivity|].
+    apply Forall2_combine; [rewrite <- (Forall2_len _ _ _ HF); exact Hlen|].
+    intros [n2 t2] x Hin2. cbn [fst snd].
+    destruct (Forall2_combine_shift _ _ _ _ _ _ HF Hin2) as [[n1 t1] [Hin1 [Hn Hst]]]. cbn [fst snd] in Hn, Hst. subst n2.
+    exists t1, x. split.
+    + exact (find_field_unique n1 n1 fs1 vs t1 x ND1 Hin1 (name_eqb_refl n1)).
+    + pose proof (in_combine_l _ _ _ _ Hin1) as Hin1f. pose proof (in_combine_l _ _ _ _ Hin2) as Hin2f.
+      pose proof (F12 _ Hin1f) as H12. cbn beta iota in H12.
+      rewrite (field_type_unique n1 n1 fs2 t2 ND2 Hin2f (name_eqb_refl n1)) in H12.
+      exact (IHfs _ Hin1f t2 x Hst H12 (fields_typed_In _ _ _ _ _ Ht Hin1)).
+Qed.
+
+(* first clause at every entry point: for compatible types each of them leaves what ConvertFrom
+   leaves in a fresh variable — whatever the destination held and whether the reply was read
+   directly or converted *)
+Theorem enter_compat : forall c, clean c -> forall e t1 t2 v old, compat t1 t2 -> has_type t1 v ->
+  enter e c t1 t2 v old = convert c t1 t2 v.
+Proof.
+  intros c Hc e t1 t2 v old H1 H2. unfold enter.
+  assert (Hconv : match old with None => convert c t1 t2 v | Some d => convert_onto c t1 t2 v d end = convert c t1 t2 v).
+  { destruct old; [now apply convert_onto_indep | reflexivity]. }
+  destruct e; try exact Hconv.
+  destruct (same_sigb t1 t2) eqn:E; [|exact Hconv]. symmetry. now apply same_sig_convert.
+Qed.
+
+Theorem enter_holds : forall c, clean c -> forall e t1 t2 v old, compat t1 t2 -> has_type t1 v ->
+  exists v', enter e c t1 t2 v old = COk v' /\ has_type t2 v' /\ agree t1 t2 v v' /\
+             forall e' old', e' <> ECall2 -> enter e' c t2 t1 v' old' = COk v.
+Proof.
+  intros c Hc e t1 t2 v old H1 H2. destruct (convert_compat c Hc t1 t2 v H1 H2) as [v' [E [T [A B]]]].
+  exists v'. rewrite (enter_compat c Hc e t1 t2 v old H1 H2). repeat split; try assumption.
+  intros e' old' He. unfold enter.
+  assert (Hconv : match old' with None => convert c t2 t1 v' | Some d => convert_onto c t2 t1 v' d end = COk v).
+  { destruct old' as [d|]; [|exact B]. unfold convert_onto. unfold convert in B. rewrite <- B.
+    exact (convert_into_covered c Hc t1 t2 v' d (proj2 (compat_covered t1 t2 H1)) T). }
+  destruct e'; try exact Hconv. contradiction.
+Qed.
+
+(* ... and an element, key or matched field of another class is refused at every entry point
+   that converts (a reply read directly has the caller's own signature) *)
+Theorem enter_other_kind_refused : forall c, clean c -> forall e t1 t2 v,
+  other_kind_reached t2 t1 v = true -> (e = ECall2 -> same_sigb t1 t2 = false) -> enter e c t1 t2 v None = CErr.
+Proof.
+  intros c Hc e t1 t2 v H Hd. unfold enter. pose proof (other_kind_refused c Hc t2 t1 v H) as Hr. fold (convert c t1 t2 v) in Hr.
+  destruct e; try exact Hr. now rewrite (Hd eq_refl).
+Qed.
+
 (* ---------- witnesses ---------- *)
 Local Open Scope string_scope.
 
